@@ -1827,8 +1827,9 @@ class tensor:
             if vector[vidx[i]].shape != (self.shape[dims[i]],):
                 assert False, "Multiplicand is wrong size"
 
-        # Extract the data
-        c = self.data.copy()
+        # Extract the data (as real numbers: integer, boolean or single precision
+        # storage must not wrap around or saturate in the sums of products)
+        c = as_float_if_needed(self.data.copy())
 
         # Permute it so that the dimensions we're working with come last
         remdims = np.setdiff1d(np.arange(0, self.ndims), dims)
